@@ -87,7 +87,8 @@ def check_C07(fx, eng, rep, tier):
     rep.trusted = ['clang 14 AST/CFG', 'clang++/g++ front ends for the witnesses']
     import guards
     guards.check_guards(fx, eng, rep, ALL_LOCKS, lock_sinks(fx, eng, ALL_LOCKS))
-    _locks(fx, eng, rep, ALL_LOCKS, ['C07.', 'C01.ROWS'], {'PessimisticLock': 10, 'OptimisticLock': 14, 'MCSLock': 8})
+    # "released" means the release function really gives the grant back: its write applies the inverse delta (C01.REL / MCS.CLR)
+    _locks(fx, eng, rep, ALL_LOCKS, ['C07.', 'C01.ROWS', 'C01.REL', 'MCS.CLR'], {'PessimisticLock': 10, 'OptimisticLock': 14, 'MCSLock': 8})
 
 
 def check_C08(fx, eng, rep, tier):
@@ -172,7 +173,8 @@ def check_C09(fx, eng, rep, tier):
     rep.trusted = ['clang 14 AST/CFG and type sizes', 'field abstraction of the lock word']
     res = lock_sinks(fx, eng, ['OptimisticLock'])
     m, sink = res['OptimisticLock']
-    n = sink.into(rep, ['C09.', 'C01.ADM', 'C01.REL', 'C10.UPG', 'C10.DOWN', 'C01.STORE', 'C01.WHO'])
+    # C02.ADMIT: no version value (the wrap-around value included) keeps an admissible exclusive request from being granted
+    n = sink.into(rep, ['C09.', 'C01.ADM', 'C01.REL', 'C10.UPG', 'C10.DOWN', 'C01.STORE', 'C01.WHO', 'C02.ADMIT'])
     # a failed TryLock* / a version read must not write the word at all
     for it in sink.items:
         if it['rule'].startswith(('C01.ROWS', 'C03.SAMPLE')) and ('TryLock' in it['key'] or 'GetVersion' in it['key'] or 'VerifyVersion' in it['key']):
@@ -219,7 +221,7 @@ def check_C02(fx, eng, rep, tier):
     rep.rule_text = 'C02.SPIN / C02.SPINFN / C02.HANDOFF / C02.PUBSTORE + C01.REL / MCS.CLR / C07.CONV'
     rep.trusted = ['clang 14 AST/CFG', 'field abstraction']
     rep.assumptions = ['liveness itself (fair schedules) is not decided; these are necessary conditions']
-    res = _locks(fx, eng, rep, ALL_LOCKS, ['C02.', 'C01.REL', 'MCS.CLR', 'C07.CONV', 'C01.ROWS', 'C01.MASK'], {'PessimisticLock': 10, 'OptimisticLock': 14, 'MCSLock': 14})
+    res = _locks(fx, eng, rep, ALL_LOCKS, ['C02.', 'C01.REL', 'MCS.CLR', 'MCS.WAIT', 'MCS.LINK', 'C07.CONV', 'C01.ROWS', 'C01.MASK'], {'PessimisticLock': 10, 'OptimisticLock': 14, 'MCSLock': 14})
     # a grant that is released twice (or never) leaves the word non-free for ever: the guard typestate is a necessary condition of progress
     import guards
     guards.check_guards(fx, eng, rep, ALL_LOCKS, res, typestate_only=True)
@@ -268,7 +270,7 @@ def check_C15(fx, eng, rep, tier):
                        'by the destructor only, GetHeartBeat returns a weak_ptr to it, and HeartBeater cannot be copied (no second owner of the control block).')
     rep.rule_text = 'C15.ORDER / C15.SYNC / C15.LIFE on ~HeartBeater, the claim loop, SetID, GetHeartBeat'
     rep.trusted = ['clang 14 CFG with implicit destructors', 'std::shared_ptr/weak_ptr semantics (expired <=> no owner)']
-    n = _take(rep, sink, ['C15.', 'C05.CLAIM', 'C05.WHO', 'C14.FREE'])
+    n = _take(rep, sink, ['C15.', 'C05.CLAIM', 'C05.WHO', 'C05.STABLE', 'C14.FREE'])
     _thread_fns(rep, fx, ('id_manager.cpp',))
     rep.floor('C15 obligations', n, 8)
 
@@ -300,7 +302,7 @@ def check_C14(fx, eng, rep, tier):
     rep.rule_text = 'C14.FREE / C14.PROBE + C05.WHO / C05.STABLE(thread_local)'
     rep.trusted = ['clang 14 AST/CFG']
     rep.assumptions = ['liveness under over-subscription is not decided; these are its necessary conditions']
-    n = _take(rep, sink, ['C14.', 'C05.WHO', 'C05.STABLE'])
+    n = _take(rep, sink, ['C14.', 'C05.WHO', 'C05.STABLE', 'C05.CLAIM'])
     _ids_other_capacity(rep, ['C14.', 'C05.WHO', 'C05.STABLE'])
     _thread_fns(rep, fx, ('id_manager.cpp',))
     rep.floor('C14 obligations', n, 6)
